@@ -57,6 +57,9 @@ def port_graph(rng, depth):
         if max(sh) >= 100000:
             wrong = [x + rng.choice([1, 2, -1]) if x >= 100000 else x for x in sh]
         arg = None if r < 0.3 else np.array(wrong, dtype=np.int64) if r < 0.5 else np.array(sh, dtype=np.int64)
+        if arg is not None and rng.random() < 0.12:
+            # a legal multi-entry types dictionary: whatever inference does to the child, the graph must advertise the same
+            arg = {"output": arg, "aux": np.array([7], dtype=np.int64)}
         nodes[nm] = {"k": "Output", "args": {"output_type": arg}}
         outs.append(nm)
     allnames = list(nodes)
